@@ -40,6 +40,7 @@ int main(int argc, char **argv) {
         e.quick_runs = 7200;
         e.thorough_runs = 144000;
     }
+    e.thorough_run_timeout_s = 400;  // a soak run (thorough tier, or the replay of one) simulates a million datagrams
     e.quick_wall_cap = 200;
     e.thorough_wall_cap = 1700;
     return sim::driver_main(argc, argv, e);
